@@ -31,6 +31,8 @@ def run(chk, tier):
     chk.configs.add("default")
     from props import c09
     chk.guarded(c09.r_write_hundreds, P, tier)
+    from props import c10
+    chk.guarded(c10.r_year_template, P, tier)      # %+ prints through write_rfc3339
     for r in (r_helpers, r_specifiers, r_composites, r_pads, r_numeric_writers, r_wallclock, r_fraction_base, r_offset_base, r_write_n_cells, r_results_consumed, r_offset_writer_map, r_two_digit_writer_map, r_offset_items, r_absint):
         chk.guarded(r, P, tier)
     chk.assume("the rendered text for each value (week-number formulas, 12-hour clock values, name lookup, offset rounding) is not decided; the documented table is specs/tables/strftime_spec.py")
